@@ -58,12 +58,30 @@ func statusAnswerJ(rs verifiable.RevocationStatus, err error) any {
 }
 
 type resolverCfg struct {
-	mode string // published | unpublished | nil | noinfo | error
+	mode     string            // published | unpublished | nil | noinfo | error: the answer for any state not listed in perState
+	perState map[string]string // state (hex, as in the DID URL query "state=<hex>") -> mode: a resolver that knows which states were published
+}
+
+func (c resolverCfg) modeFor(stateHex string) string {
+	if m, ok := c.perState[stateHex]; ok {
+		return m
+	}
+	return c.mode
+}
+
+// the state a DID URL asks about ("...?state=<hex>")
+func askedState(did *w3c.DID) string {
+	for _, kv := range strings.Split(did.Query, "&") {
+		if strings.HasPrefix(kv, "state=") {
+			return strings.TrimPrefix(kv, "state=")
+		}
+	}
+	return ""
 }
 
 func (c resolverCfg) resolver(calls *int) verifiable.DIDResolver {
 	return didResolver{calls: calls, f: func(did *w3c.DID) (verifiable.DIDDocument, error) {
-		switch c.mode {
+		switch c.modeFor(askedState(did)) {
 		case "published":
 			t := true
 			return didDocPublished(&t), nil
@@ -79,8 +97,15 @@ func (c resolverCfg) resolver(calls *int) verifiable.DIDResolver {
 	}}
 }
 
-func (c resolverCfg) J() any {
-	switch c.mode {
+// what the resolver says about the state named in the proof (the model's input: the property speaks of that state only)
+func (c resolverCfg) J(state ...*string) any {
+	m := c.mode
+	if len(state) == 1 && state[0] != nil {
+		if h, err := merkletree.NewHashFromHex(*state[0]); err == nil {
+			m = c.modeFor(h.Hex())
+		}
+	}
+	switch m {
 	case "published":
 		return J{"published": true}
 	case "unpublished":
@@ -220,6 +245,7 @@ type bjjCtx struct {
 	statusErr  bool
 	unregister bool
 	statusMod  func(rs *verifiable.RevocationStatus)
+	benign     *bool // set by a fault whose harmfulness depends on the generated issuer
 }
 
 func otherProofFrom(is *Issuer, r *Rng) *merkletree.Proof {
@@ -368,6 +394,45 @@ func bjjFaults() []bjjFault {
 			*p = *s.is.SignBJJ(s.claim)
 			x.res.mode = "nil"
 		}},
+		{name: "did-url-smuggles-a-published-state", apply: func(s *verifySetup, p *verifiable.BJJSignatureProof2021, x *bjjCtx, r *Rng) {
+			// the issuer id is a DID URL that already names a published state (here: the genesis state, published), while the proof's
+			// own state is a later one the resolver does not know as published
+			pub := hexOfInt(s.is.genesis)
+			s.makeLater(r)
+			_ = s.is.claims.Add(context.Background(), r.BigBelow(poseidonQ()), big.NewInt(2))
+			*p = *s.is.SignBJJ(s.claim)
+			h, _ := merkletree.NewHashFromHex(*pub)
+			p.IssuerData.ID = s.is.did.String() + "?state=" + h.Hex()
+			x.res = resolverCfg{mode: "unpublished", perState: map[string]string{h.Hex(): "published"}}
+		}},
+		{name: "status-nonce-zero", apply: func(s *verifySetup, p *verifiable.BJJSignatureProof2021, x *bjjCtx, r *Rng) {
+			n := float64(0)
+			if s.is.authNonce == 0 {
+				n = 1
+			}
+			p.IssuerData.CredentialStatus = map[string]any{"id": "https://status.example/auth", "type": "SparseMerkleTreeProof", "revocationNonce": n}
+		}},
+		{name: "status-nonce-omitted", apply: func(s *verifySetup, p *verifiable.BJJSignatureProof2021, x *bjjCtx, r *Rng) {
+			// an omitted nonce decodes as 0: a fault unless the auth claim's nonce is 0
+			p.IssuerData.CredentialStatus = map[string]any{"id": "https://status.example/auth", "type": "SparseMerkleTreeProof"}
+			if s.is.authNonce == 0 {
+				b := true
+				x.benign = &b
+			}
+		}},
+		{name: "revoked-auth-claim-status-nonce-zero", apply: func(s *verifySetup, p *verifiable.BJJSignatureProof2021, x *bjjCtx, r *Rng) {
+			// the auth key is revoked; the status entry asks about nonce 0 (or 1), which is honestly not revoked
+			_ = s.is.revs.Add(context.Background(), new(big.Int).SetUint64(s.is.authNonce), big.NewInt(0))
+			s.revoked = true
+			s.later = true
+			*p = *s.is.SignBJJ(s.claim)
+			x.res.mode = "published"
+			n := float64(0)
+			if s.is.authNonce == 0 {
+				n = 1
+			}
+			p.IssuerData.CredentialStatus = map[string]any{"id": "https://status.example/auth", "type": "SparseMerkleTreeProof", "revocationNonce": n}
+		}},
 		{name: "resolver-error", apply: func(s *verifySetup, p *verifiable.BJJSignatureProof2021, x *bjjCtx, r *Rng) { x.res.mode = "error" }},
 		{name: "resolver-no-state-info", apply: func(s *verifySetup, p *verifiable.BJJSignatureProof2021, x *bjjCtx, r *Rng) { x.res.mode = "noinfo" }},
 		{name: "status-nonce-mismatch", apply: func(s *verifySetup, p *verifiable.BJJSignatureProof2021, x *bjjCtx, r *Rng) {
@@ -452,12 +517,16 @@ func emitBJJ(out *Out, r *Rng, f bjjFault, later bool) {
 	st := p.IssuerData.State
 	in["issuer"] = J{"didOk": derr == nil, "state": treeStateJ(st.Value, st.ClaimsTreeRoot, st.RevocationTreeRoot, st.RootOfRoots)}
 	in["authMtp"] = proofJSON(p.IssuerData.MTP)
-	in["resolved"] = x.res.J()
+	in["resolved"] = x.res.J(st.Value)
 	in["genesis"] = genesisOracle(p.IssuerData.ID, st.Value)
 	// status nonce as coerceCredentialStatus reads it
 	switch cs := p.IssuerData.CredentialStatus.(type) {
 	case map[string]any:
-		n, okN := cs["revocationNonce"].(float64)
+		nv, present := cs["revocationNonce"]
+		n, okN := nv.(float64)
+		if !present {
+			n, okN = 0, true // encoding/json leaves the field at its zero value
+		}
 		_, okT := cs["type"].(string)
 		if okN && okT {
 			in["statusNonce"] = J{"ok": fmt.Sprint(uint64(n))}
@@ -486,8 +555,12 @@ func emitBJJ(out *Out, r *Rng, f bjjFault, later bool) {
 	c.Impl = impl
 	var why []string
 	accepted := err == nil
-	if accepted != f.benign {
-		if f.benign {
+	benign := f.benign
+	if x.benign != nil {
+		benign = *x.benign
+	}
+	if accepted != benign {
+		if benign {
 			why = append(why, fmt.Sprintf("a properly issued and signed credential was rejected (%s): %v", f.name, err))
 		} else {
 			why = append(why, fmt.Sprintf("verification succeeded although the bundle carries the fault %q", f.name))
